@@ -278,6 +278,19 @@ PROPS["C19"] = {
 }
 
 EMU_NOTE = "Trusted: Coq kernel; hand-written event-level model of xsensemulator/emulator.go (validated by correspondence); the frame model of C02; harness (drives a real emulator deterministically through a port that reports when the receive loop is idle). No axioms."
+PROPS["C16"] = {
+    "level_text": "Theorems (Props/C16.v) over Model.Link - client (send / receiveUntil with the identifiers of the generated command table) and emulator receive loop (Model.Emulator.estep split into 'update state' and 'write acknowledge') as separately scheduled steps over two FIFO channels - for EVERY schedule, every command sequence of any length and every configuration of up to 512 in-range settings: each enabled step consumes exactly one of 4*|cmds| units and some step is always enabled while a command is outstanding (so every command completes, none fails); whenever the client is between commands the emulator's mode and configuration are those of exactly the commands that have returned; MarshalMessage refuses a type iff no setting has it and otherwise uses the identifier of the setting of that type; in the data phase received ++ in-flight = transmitted (order, no loss/duplication/merging), every frame validates, Transmit writes iff the last command was go-to-measurement; and, on the skeleton regenerated from emulator.go, no path of an iteration of Receive writes shared state after a port write. Correspondence: real client + real emulator over synchronous and buffered in-memory links, GOMAXPROCS 1..16.",
+    "level_note": "Channels carry frames: byte-level fragmentation independence is C01's theorem and the client's command loop refinement is C08's; the composition with them is by statement, not by a single Coq theorem. Goroutine scheduling itself is not modelled beyond interleaving of the four step kinds; the real runs only see the schedules that happen. The decoded-value clause uses Model.Codec (C04/C05 theorems) through the evaluator; its end-to-end Coq statement is Proofs/DataPathProofs when present.",
+    "technique": "Rocq proof (invariant + measure by induction over every schedule of an interleaving model; reflective order check of a skeleton translated from the Go AST on every run) + differential correspondence of real client/emulator runs against the model's canonical schedule",
+    "props_file": "Props/C16.v",
+    "eval_modules": ["Run.EvalLink"],
+    "imports": ["XS.Model.Link"],
+    "kinds": {"link": {"type": "case_link", "chk": "chk_link", "sig": "sig_link", "scope": "Z_scope"}},
+    "rule": "command sequences: empty; the documented workflow for configuration sizes 1..25; reconfiguration to fewer settings (with and without returning to measurement); the same configuration twice; repeated mode commands; measuring with an empty configuration; random sequences of 0..12 (thorough 0..50) commands. Each on a synchronous (io.Pipe) and a buffered link, GOMAXPROCS drawn from {1,2,4,16}. After every command returns: LastMessageIdentifier and MarshalMessage for all 25 types + one unknown type, the types the command changed probed first. Then 0..12 transmissions of random values (types mostly from the configuration) while the client reads; per frame the client's typed value. Oracle: mode_after / conf_after of the returned commands, last-setting-wins identifiers, value at the configured precision (Model.Codec), order and count. non-trivial = at least one command; distinct = distinct terms",
+    "trusted": ["in-memory links of the harness (io.Pipe; a mutex/cond buffered pipe) are lossless and ordered", "the observation after a command returns is taken from the harness goroutine as soon as the call returns"],
+    "assumptions": ["lossless duplex link", "one client, commands issued sequentially", "measurements are transmitted after the command sequence (the property's 'then')"],
+}
+
 PROPS["C17"] = {
     "level_text": "Theorems (Props/C17.v): (metatheory, by induction over every interleaving of any number of threads) code whose every access to the shared fields happens inside a Lock..Unlock section of the one mutex, and whose paths never return with the lock held, has no data race and never two threads inside critical sections; (soundness of the static check) `disciplined s` implies this for every path of the statement, loops unrolled arbitrarily and early returns included; (the code) the lock/access skeleton of every method of xsensemulator.Emulator, REGENERATED from emulator.go on every run, is disciplined, hence any plan of emulator calls from any number of goroutines is race free and a concurrent encode reads the configuration inside one critical section, i.e. whole. Dynamic side: the real emulator under Go's race detector with a receive loop and 2-4 hammering goroutines, and a mixture detector on the identifiers concurrent encodes return.",
     "level_note": "Go's memory model (DRF-SC) is assumed, not proved: race-free programs behave as some sequentially consistent interleaving. The skeleton abstracts each method to lock/unlock/read/write/call/return actions on the receiver's fields; aliasing through the slice passed to SetOutputConguration (the caller keeps a reference) is outside the model and stated as an assumption. The race detector only sees the schedules that happen.",
